@@ -192,7 +192,64 @@ func RunLines(s *sut.SUT, f Flags, variant int, lines [][]byte) []LineOut {
 	go func() { defer wg.Done(); copy(res[:mid], RunLines(s, f, variant, lines[:mid])) }()
 	go func() { defer wg.Done(); copy(res[mid:], RunLines(s, f, variant, lines[mid:])) }()
 	wg.Wait()
+	// every line is fine on its own but the batch was not: the outcome depends on
+	// the context a line sits in. That must not be papered over by the bisection.
+	allFine := true
+	for _, r := range res {
+		if r.Out == nil || r.Crash != "" || r.Timeout {
+			allFine = false
+		}
+	}
+	if allFine {
+		anomalyMu.Lock()
+		if len(batchAnomalies) < 5 && (len(lines) <= 4 || len(batchAnomalies) == 0) {
+			var in strings.Builder
+			for i, l := range lines {
+				if i >= 12 {
+					fmt.Fprintf(&in, "… (%d more lines)\n", len(lines)-i)
+					break
+				}
+				in.Write(l)
+				in.WriteByte('\n')
+			}
+			batchAnomalies = append(batchAnomalies, batchAnomaly{f, in.String(), fmt.Sprintf("each of %d lines produces its output line when processed in smaller pieces, but the %d-line file as a whole does not (it yielded %d lines / a failure)", len(lines), len(lines), countOuts(outs))})
+		}
+		anomalyMu.Unlock()
+	}
 	return res
+}
+
+type batchAnomaly struct {
+	Flags Flags
+	Input string
+	What  string
+}
+
+var (
+	anomalyMu      sync.Mutex
+	batchAnomalies []batchAnomaly
+)
+
+func countOuts(o []LineOut) int {
+	n := 0
+	for _, x := range o {
+		if x.Out != nil {
+			n++
+		}
+	}
+	return n
+}
+
+// reportBatchAnomalies turns context-dependent batch outcomes into violations
+// of the calling check (a line that is accepted alone must be accepted inside
+// a log as well; C06 states that in general, every line-level monitor relies on it).
+func reportBatchAnomalies(c *ev.Check) {
+	anomalyMu.Lock()
+	defer anomalyMu.Unlock()
+	for _, a := range batchAnomalies {
+		c.Violation("context-dependent-outcome", fmt.Sprintf("%s (flags %s)", a.What, a.Flags), map[string]any{"kind": "sequence", "flags": a.Flags.Args(0, "KEYFILE"), "input": a.Input})
+	}
+	c.Set("batches_whose_outcome_depended_on_context", len(batchAnomalies))
 }
 
 func runBatch(s *sut.SUT, f Flags, variant int, lines [][]byte) ([]LineOut, bool) {
